@@ -26,7 +26,9 @@ ENGINE = "hypothesis @given"
 RULE = (
     "Generated: momentum size N odd in [3,21], position size M in [3,8] (capped so that the Boltzmann "
     "operator built inside getDeltas stays below 1600^2 entries), momentum scale T0 in 10^[-2,3], 1-2 "
-    "particles with m^2(z) = T0^2 (mu^2 + y^2 phi(z)^2/2) >= 0 on a generated field profile, either "
+    "particles with m^2(z) = T0^2 (mu^2 + y^2 phi(z)^2/2) on a generated field profile (a fifth of the massive ones "
+    "tachyonic where the field is small, with E^2 > 0 on every node), in half of the cases after the solver computed "
+    "moments for another particle list, either "
     "statistics, both grid classes, all four (basisM, basisN) combinations; deviation from the exactness "
     "family of one target weight W_k: df = A_{a,i} 4 pi^2 E /(W_k J_z J_par p_par) P_z P_par / "
     "sqrt((1-rz^2)(1-rp^2)), P = (1-x^2) q with integer Chebyshev coefficients, degrees up to 2N-1 and "
@@ -108,6 +110,9 @@ def st_case(draw, tier):
             "y2": 0.0 if massless else draw(st.floats(0.01, 4.0)),
             "dof": draw(st.integers(1, 24)),
             "stat": draw(st.sampled_from(["Fermion", "Boson"])),
+            # tachyonic in part of the wall (m^2 = -mu^2 + y^2 phi^2/2 < 0 where the field is small) with E^2 > 0 on
+            # every node: -neg x (smallest p_z^2 of the grid) replaces mu2
+            "neg": 0.0 if massless else draw(st.sampled_from([0.0, 0.0, 0.0, 0.0, 0.3, 0.8])),
         })
     field = [draw(st.integers(0, 12)) / 4.0 for _ in range(M + 1)]
     fam = draw(st.sampled_from(WEIGHTS))
@@ -126,6 +131,9 @@ def st_case(draw, tier):
     rescale_from = draw(st.sampled_from([None, None, 0.4, 2.5, 10.0]))
     return {"kind": "moments", "gk": gk, "M": M, "N": N, "T0": T0, "rescale_from": rescale_from,
             "recycle_bg": draw(st.sampled_from([False, False, True])),
+            # call history on the SOLVER object: it has computed moments for another particle list (other masses,
+            # same or other number of particles) before updateParticleList installs the one under test
+            "particle_history": draw(st.sampled_from([None, None, None, "same-count", "one", "two"])),
             # call history on the SHARED grid object: another user of the same grid changes the basis of its own
             # collision array (inverse-transposed matrices) or computes moments in another basis first
             "grid_history": draw(st.sampled_from([None, None, None, "coll-to-Cardinal", "coll-to-Chebyshev",
@@ -169,6 +177,15 @@ def weight_fn(name, E, pz):
     raise ValueError(name)
 
 
+def mu2_of(case, p):
+    """vacuum mass term of a particle spec in units of T0^2 (negative for the tachyonic variant)"""
+    if p.get("neg"):
+        _, axr, axp = _axes(case["M"], case["N"])
+        pz1 = R.momentum_maps(1.0, axr.nodes, axp.nodes)[0]
+        return -float(p["neg"]) * float(np.min(pz1 ** 2))
+    return float(p["mu2"])
+
+
 def build_solver(case):
     import WallGo
     from WallGo.boltzmann import BoltzmannSolver
@@ -186,7 +203,7 @@ def build_solver(case):
         grid.changeMomentumFalloffScale(T0)
     particles = []
     for i, p in enumerate(case["particles"]):
-        mu2, y2 = p["mu2"] * T0 ** 2, p["y2"]
+        mu2, y2 = mu2_of(case, p) * T0 ** 2, p["y2"]
 
         def msq(fields, mu2=mu2, y2=y2):
             return mu2 + 0.5 * y2 * fields.getField(0) ** 2
@@ -207,8 +224,29 @@ def build_solver(case):
         polynomialBasis="Cardinal",
     )
     solver = BoltzmannSolver(grid, case["basisM"], case["basisN"], "Spectral")
-    solver.updateParticleList(particles)
-    solver.setBackground(bg)
+    ph = case.get("particle_history")
+    if ph:
+        nO = {"same-count": len(particles), "one": 1, "two": 2}[ph]
+        others = []
+        for i in range(nO):
+            def msqO(fields, i=i):
+                return (4.0 + i) * T0 ** 2 + 0.65 * fields.getField(0) ** 2
+
+            def dmsqO(fields):
+                return np.transpose([1.3 * fields.getField(0)])
+
+            others.append(WallGo.Particle(name=f"o{i}", index=i, msqVacuum=msqO, msqDerivative=dmsqO,
+                                          statistics="Boson" if i else "Fermion", totalDOFs=3 + i))
+        solver.updateParticleList(others)
+        solver.setBackground(bg)
+        cO = CollisionArray(grid, case["basisN"], others)
+        cO.polynomialData.coefficients = np.eye(nO * (N - 1) ** 2).reshape((nO, N - 1, N - 1, nO, N - 1, N - 1))
+        solver.setCollisionArray(cO)
+        solver.getDeltas(np.cos(np.arange(nO * (M - 1) * (N - 1) ** 2, dtype=float)).reshape((nO, M - 1, N - 1, N - 1)))
+        solver.updateParticleList(particles)
+    else:
+        solver.updateParticleList(particles)
+        solver.setBackground(bg)
     if case.get("recycle_bg"):
         # call history: the caller re-uses its background object / buffers after handing it over (the moments are
         # those of the background that was set, not of whatever the caller writes into its own arrays later)
@@ -257,7 +295,7 @@ def check_case(case) -> Verdict:
     axz, axr, axp = _axes(M, N)
     rz, rp = axr.nodes, axp.nodes
     pz, pp, jz, jp = R.momentum_maps(T0, rz, rp)
-    msq = np.array([[T0 ** 2 * p["mu2"] + 0.5 * p["y2"] * (T0 * f) ** 2 for f in case["field"][1:-1]]
+    msq = np.array([[T0 ** 2 * mu2_of(case, p) + 0.5 * p["y2"] * (T0 * f) ** 2 for f in case["field"][1:-1]]
                     for p in case["particles"]])                       # (P, M-1)
     E = np.sqrt(msq[:, :, None, None] + pz[None, None, :, None] ** 2 + pp[None, None, None, :] ** 2)
     sz, sp = np.sqrt((1 - rz) * (1 + rz)), np.sqrt((1 - rp) * (1 + rp))
@@ -286,7 +324,7 @@ def check_case(case) -> Verdict:
            * np.exp(-E / T0) / T0 ** 2)
     a_, b_ = case["ab"]
 
-    massive = bool(np.any(msq > 0))
+    massive = bool(np.any(msq != 0))
     v.nontrivial = bool(len(case["qz"]) >= 2 and len(case["qp"]) >= 2 and massive)
     v.label(f"family:{fam}", f"N:{N}", f"M:{M}", f"P:{P}", f"grid:{case['gk']}",
             f"basis:{case['basisM'][:4]}/{case['basisN'][:4]}",
@@ -296,6 +334,8 @@ def check_case(case) -> Verdict:
             f"T0:1e{int(np.floor(np.log10(T0)))}", "grid:rescaled" if case.get("rescale_from") else "grid:direct",
             "background:recycled-by-caller" if case.get("recycle_bg") else "background:untouched",
             f"grid-history:{case.get('grid_history') or 'none'}",
+            f"particle-history:{case.get('particle_history') or 'none'}",
+            "msq:negative-somewhere" if np.any(msq < 0) else "msq:nonnegative",
             "c0:zero" if tz[0] * tp[0] == 0 else "c0:nonzero",
             *{f"stat:{p['stat']}" for p in case["particles"]})
     cls = f"{fam} basis={case['basisM'][:4]}/{case['basisN'][:4]}"
